@@ -186,3 +186,24 @@ Definition reply_bytes (h ty : Z) : res (list Z) :=
   if ty =? tok_PING then match on_PING with ActPongHeader => sendPONG h [] | ActIgnore => Ok [] end
   else if ty =? tok_PONG then match on_PONG with ActPongHeader => sendPONG h [] | ActIgnore => Ok [] end
   else Ok [].
+
+(* The same dispatch with the receiver's discard state: d = discardCount (> 0 while the rest of a rejected or
+   aborted sequence is being skipped), i = number of non-PING/PONG tokens seen so far, `bad i t` = the unslicer
+   stack raises a Violation on (or the sender ABORTs at) the i-th token.  The bookkeeping of d is a coarse
+   abstraction of handleViolation (C07 owns the exact one); what matters here is that the PING and PONG
+   clauses come first in every state: handleData reaches `elif typebyte == PING` whether or not
+   `rejected` is set. *)
+Fixpoint rx_disc (bad : nat -> tok -> bool) (d i : nat) (toks : list tok) {struct toks} : list tok * list Z :=
+  match toks with
+  | [] => ([], [])
+  | (h, ty) :: r =>
+      if ty =? tok_PING then let '(dl, p) := rx_disc bad d i r in (dl, act on_PING h ++ p)
+      else if ty =? tok_PONG then let '(dl, p) := rx_disc bad d i r in (dl, act on_PONG h ++ p)
+      else match d with
+           | O => if bad i (h, ty) then rx_disc bad 1 (S i) r
+                  else let '(dl, p) := rx_disc bad O (S i) r in ((h, ty) :: dl, p)
+           | S d' => if ty =? tok_OPEN then rx_disc bad (S d) (S i) r
+                     else if ty =? tok_CLOSE then rx_disc bad d' (S i) r
+                     else rx_disc bad d (S i) r
+           end
+  end.
